@@ -7,37 +7,57 @@ from driver import fmtgen as G
 ID = "C03"
 TIMEOUT = 3.0           # per-op watchdog; inputs are < 1 kB, a parse takes microseconds
 UNMODELLED = "unmodelled"
-LEVEL_TEXT = ("Lean theorems about total executable parser models (termination = Lean's termination checker): the "
-              "FASTA model returns ok-rectangular-distinct-names or error on every byte string (fasta_outcome_partial; "
-              "the full outcome theorem is FALSE for the unchanged code and its counter-example is proved), "
-              "the C03 predicate is evaluated by the compiled oracle on the implementation's outcome for every "
-              "generated input of all seven parsers; correspondence model=implementation for the modelled formats.")
-LEVEL_NOTE = ("Trusted: Lean kernel; harness + python watchdog (hang = no answer within 3 s on inputs < 1 kB); the "
-              "naive header scanners of Spec/Fmt.lean; bufio/UTF-8 decoding (models are ASCII-only, non-ASCII inputs "
-              "carry no correspondence obligation but are still judged by the predicate).")
-TECHNIQUE = "Lean 4 proof (total parser models, structural induction) + exhaustive-truncation / mutation differential run"
+LEVEL_TEXT = ("Lean theorems about total executable models of all seven parsers (FASTA, Phylip strict/relaxed/multi, Nexus, "
+              "Clustal, Stockholm, partition + AddRange; termination = Lean's termination checker, explicit outcomes "
+              "ok/error/exit/panic/hang): for FASTA the outcome theorem over ALL byte strings and options is proved for the "
+              "parser with the proposed patch (fasta_outcome_fixed) and, for the code as it is, everything except "
+              "non-emptiness (fasta_outcome_partial) with the kernel-checked counter-example; AddRange with the proposed "
+              "guards is proved in bounds and terminating for all 64-bit start/end/modulo (addRange_in_bounds); for every "
+              "other parser the full statement is refuted for the code as it is by kernel-evaluated counter-examples "
+              "(hang / panic / empty success) and stays open for the patched code. Models are tied to /repo by regenerated "
+              "guard facts + differential correspondence on every generated input; the C03 predicate itself is evaluated "
+              "by the compiled oracle on the implementation's outcome for every input.")
+LEVEL_NOTE = ("Trusted: Lean kernel; harness + python watchdog (hang = no answer within 3 s on inputs < 1 kB); the naive "
+              "header scanners of Spec/Fmt.lean; tools/extract/fmtfacts.go (syntactic recognition of the guards); "
+              "bufio/UTF-8 decoding (models are ASCII-only: non-ASCII inputs carry no correspondence obligation but are "
+              "still judged by the predicate). The universal outcome theorems for Phylip, Nexus, Clustal, Stockholm and the "
+              "partition token loops are open: see evidence 'partial'.")
+TECHNIQUE = "Lean 4 proof (total parser models, container invariant by induction over token lists) + exhaustive-truncation / mutation differential run"
 LEAN_MODULES = ["Gv.Props.C03"]
 REQUIRED_THEOREMS = ["Gv.Props.C03." + n for n in [
-    "fasta_outcome_counterexample", "fasta_outcome_partial", "fasta_outcome_fixed"]]
-PARTIAL = []            # filled below (formats without a model)
+    "fasta_outcome_counterexample", "fasta_outcome_partial", "fasta_outcome_fixed",
+    "stockholm_counterexample_hang", "stockholm_counterexample_empty", "stockholm_patched_witnesses",
+    "nexus_counterexample_hang", "nexus_counterexample_zero_columns", "nexus_counterexample_minus_one",
+    "nexus_patched_witnesses", "clustal_counterexample_panic", "clustal_patched_witness",
+    "phylip_counterexample_alloc_panic", "phylip_patched_witness",
+    "partition_counterexample_overflow_panic", "partition_patched_witness", "addRange_in_bounds", "newPSet_inv"]]
 TRUSTED = ["bufio.Reader / UTF-8 rune decoding (inputs with bytes >= 128 are judged by the predicate only)",
-           "python watchdog: hang = no answer within TIMEOUT"]
+           "python watchdog: hang = no answer within TIMEOUT",
+           "tools/extract/fmtfacts.go: recognises the proposed guards syntactically; the models are parametric in these facts"]
 ASSUMPTIONS = ["a NUL byte is goalign's in-band end-of-input marker (lexers return rune 0 for EOF): the Phylip "
                "end-of-stream marker is accepted when the input is blank up to its first NUL",
-               "os.Exit(1) after a printed message (lone \\r in Phylip/Clustal lexers) is an explicit error report (DESIGN 7.2)"]
+               "os.Exit(1) after a printed message (lone CR in Phylip/Clustal lexers) is an explicit error report (DESIGN 7.2)",
+               "Phylip header counts of 2^27..2^44 sequences: the allocation succeeds lazily and the outcome depends on the "
+               "machine's memory; such inputs are judged by the predicate but not compared with the model"]
 RULE = ("valid files of each format (python writers + hand-written variants: interleaved blocks, comments, TAXA blocks, "
         "markup lines, duplicate names) and from them ALL truncations, single-byte substitutions from a 26-byte class "
         "alphabet at token boundaries (quick) / every offset (thorough), line deletion / duplication / swap, token "
         "splices across formats, header-count perturbations, lone CR, CRLF, NUL, unterminated '[', markup on the last "
-        "line, blocks with extra / missing rows; every parser option on the option-sensitive files (all options on "
-        "everything in thorough); partition strings from a grammar + overflow values; non-trivial = differs from every "
-        "seed file and the first changed byte lies beyond the header")
+        "line, blocks with extra / missing rows; every parser option on the option-sensitive files; auto-detecting entry "
+        "point, multi-Phylip streams and their truncations; partition strings from a grammar + overflow values; "
+        "non-trivial = differs from every seed file and the first changed byte lies beyond the header")
 
-MODELLED = {"fasta", "phylip", "stockholm", "clustal", "partition", "multi-phylip", "nexus"}
-for _f in ["phylip", "nexus", "clustal", "stockholm", "partition", "multi-phylip", "auto-detection"]:
-    if _f not in MODELLED:
-        PARTIAL.append("no Lean parser model yet for %s: its inputs are judged by the C03 predicate on the "
-                       "implementation's outcome only (oracle answers `unmodelled`, no correspondence obligation)" % _f)
+PARTIAL = [
+    "FASTA: full statement false for the code as it is ('>a' + newline succeeds with 0 rows): fasta_outcome_partial proves all "
+    "clauses except non-emptiness and characterises the zero-row successes; fasta_outcome_fixed proves the full statement "
+    "for the patched parser",
+    "Phylip, Nexus, Clustal, Stockholm, partition parser: executable models + correspondence + kernel-evaluated "
+    "counter-examples for the code as it is; the universal outcome theorems (never panic / never hang / ok => "
+    "well-formed, for all byte strings) for the patched models are stated in Props/C03.lean and OPEN",
+    "AddRange: proved for the guarded code (addRange_in_bounds); the token loops of the partition parser around it are open",
+    "multi-Phylip (ParseMultiple) and ParseAlignmentAuto: modelled in the oracle as folds over the single-parser models; no theorem",
+    "inputs with bytes >= 128 (UTF-8 decoding) and Phylip allocations of 2^27..2^44 entries: predicate only, no model",
+]
 
 BYTE_CLASSES = [b"\n", b"\r", b" ", b"\t", b"\x00", b">", b"#", b"[", b"]", b";", b"=", b",", b"-", b"/", b":",
                 b"0", b"9", b"A", b"z", b"*", b".", b"\x7f", b"\x80", b"\xff", b"\xc3", b"|"]
@@ -265,7 +285,12 @@ def variants(fmt, data, hdr, rng, tier, seed_tag):
     yield from truncations(data)
     tb = token_boundaries(data)
     if thorough:
-        yield from substitutions(data, range(len(data)), BYTE_CLASSES)
+        # every offset x every byte class; an unterminated '[' in a Nexus file costs a 3 s watchdog wait, so that one
+        # class is applied at the token boundaries only
+        classes = [c for c in BYTE_CLASSES if not (fmt == "nexus" and c == b"[")]
+        yield from substitutions(data, range(len(data)), classes)
+        if fmt == "nexus":
+            yield from substitutions(data, tb[::3], [b"["])
     else:
         # (every unterminated '[' in a Nexus file costs a 3 s watchdog wait: in the quick tier '[' is inserted
         # at a few boundaries only, below)
@@ -276,7 +301,7 @@ def variants(fmt, data, hdr, rng, tier, seed_tag):
     yield from cr_variants(data)
     yield from header_counts(fmt, data)
     offs = tb if thorough else rng.sample(tb, min(len(tb), 12))
-    few = offs if (thorough or fmt != "nexus") else offs[:3]
+    few = offs if fmt != "nexus" else (offs[::4] if thorough else offs[:3])
     yield from insertions(data, offs, b"\x00", "nul-inserted")
     yield from insertions(data, few, b"[", "open-bracket-inserted")
     yield from insertions(data, offs, b"#", "hash-inserted")
@@ -336,14 +361,22 @@ def gen(rng, tier):
         optsens = ("dup" in tag or "prot" in tag or tag.endswith("-nt"))
         for mutant, off, mtag in variants(fmt, data, hdr, rng, tier, tag):
             nontriv = mutant not in seedset and off is not None and off >= hdr
-            if mtag.endswith("2^31") and not thorough:
+            if mtag.endswith("2^31"):
+                # (maps 48 GB lazily and keeps the GC busy for seconds: a handful only, so that the machine stays quiet)
                 big += 1
-                if big > 3:
+                if big > (3 if not thorough else 8):
                     continue
                 yield Case("parse", [fmt, popts_default(fmt, strict), G.hx(mutant)], nontriv, "%s:%s" % (fmt, mtag))
                 continue
-            if thorough or (optsens and mtag in ("valid", "truncate", "line-duplicate", "line-delete")):
-                opts = allopts if (thorough or mtag != "truncate") else [popts_default(fmt, strict)] + rng.sample(allopts, 2)
+            if thorough:
+                if mtag in ("subst", "nul-inserted", "hash-inserted", "markup-inserted", "open-bracket-inserted"):
+                    opts = [popts_default(fmt, strict), rng.choice(allopts)]
+                elif mtag == "truncate" and not optsens:
+                    opts = [popts_default(fmt, strict)] + rng.sample(allopts, 2)
+                else:
+                    opts = allopts
+            elif optsens and mtag in ("valid", "truncate", "line-duplicate", "line-delete"):
+                opts = allopts if mtag != "truncate" else [popts_default(fmt, strict)] + rng.sample(allopts, 2)
             else:
                 opts = [popts_default(fmt, strict), rng.choice(allopts)]
             for o in dict.fromkeys(opts):
@@ -423,6 +456,17 @@ def shrink(c):
                 yield Case(c.op, args)
 
 
+# ---- watchdog hits that no known root cause explains are re-run alone (machine load must not fail the check) ------
+
+def recheck(binpath, cases):
+    from driver import common
+    sus = [c for c in cases if (c.impl in ("hang",) or (c.impl or "").startswith("exit:-")) and classify(c) is None]
+    for c in sus[:40]:
+        again = Case(c.op, c.args, c.nontrivial, c.tag)
+        common.evaluate(binpath, [again], timeout_s=2 * TIMEOUT)
+        c.impl, c.model, c.verdict = again.impl, again.model, again.verdict
+
+
 # ---- known findings (precise, per root cause) --------------------------------------------------------
 
 def _fmt_of(c):
@@ -457,8 +501,11 @@ def classify(c):
         if re.search(rb"(^|[ \t#\r\x00])#", last):
             return "stockholm-markup-eof-hang"
     if fmt == "nexus" and v == "fail:hang":
+        # some '[' token whose comment is not closed by a ']' TOKEN before the end of the input (a ']' right after a
+        # lone CR is swallowed into an identifier by the lexer)
         i = data.rfind(b"[")
-        if i >= 0 and b"]" not in data[i:]:
+        rest = data[i:].replace(b"\r]", b"") if i >= 0 else b""
+        if i >= 0 and (b"]" not in rest or any(b"]" not in data[k:].replace(b"\r]", b"") for k in range(len(data)) if data[k:k + 1] == b"[")):
             return "nexus-unterminated-comment-hang"
     if fmt == "clustal" and v == "fail:panic" and "index out of range" in impl:
         if len(re.split(rb"\n[ \t]*[^\n]*\n[ \t\r]*\n", data)) >= 2 or data.count(b"\n\n") >= 2:
